@@ -1173,6 +1173,11 @@ def usage_specs():
                                {"name": "dock2", "cap": 1.0, "targets": [1], "facilities": [{"name": "crane2", "skills": {"hullB": 1.0}, "cost": 1.0}], "copy_of": "dock1"}],
                 "teams": [{"name": "TM0", "targets": [0, 1], "workers": [{"name": "r%d" % i, "skills": {"hullA": 1.0, "hullB": 1.0}, "fskills": {"crane1": 1.0, "crane2": 1.0}, "cost": 1.0} for i in range(2)]}],
                 "label": "usage:workplace-twin-by-copy"})
+    # (U2b) a task cloned with copy.copy from a template task and given to another team
+    for works in ((3.0, 2.0), (2.0, 3.0)):
+        out.append({"tasks": [{"name": "A", "work": works[0]}, {"name": "B", "work": works[1], "copy_of": "A"}], "links": [],
+                    "teams": [{"name": "TA", "targets": [0], "workers": [{"name": "wA", "skills": {"A": 1.0}, "cost": 1.0}]},
+                              {"name": "TB", "targets": [1], "workers": [{"name": "wB", "skills": {"B": 1.0}, "cost": 1.0}]}], "label": "usage:task-twin-by-copy:%s" % (works,)})
     # (U3) value-equal twins: two fitters of the same name and skills in different teams (and two equal machines)
     for works in ((4.0, 1.0), (1.0, 4.0), (2.0, 2.0)):
         out.append({"tasks": [{"name": "long", "id": "T0", "work": works[0]}, {"name": "short", "id": "T1", "work": works[1]}], "links": [],
@@ -1211,6 +1216,12 @@ def usage_items(rules=("TSLACK",)):
             out.append((sp, {"rule": rule, "max_time": seq_bound(sp) + 10}))
             out.append((sp, {"rule": rule, "absence": [1], "max_time": seq_bound(sp) + 12}))
         out.append((sp, {"rule": rules[0], "presim": 1, "max_time": seq_bound(sp) + 10}))  # a second run on the same objects
+        who = worker_names(sp)[:1] + facility_names(sp)[:1]
+        if who and "calendars" not in sp.get("label", ""):
+            # a forward run after a backward run (and after a backward run with unreversed logs) on objects with personal calendars that are not symmetric in the run
+            ra = {w: [1] if i == 0 else [0, 2] for i, w in enumerate(who)}
+            out.append((sp, {"rule": rules[0], "presim_back": 1, "res_absence": ra, "max_time": seq_bound(sp) + 14}))
+            out.append((sp, {"rule": rules[0], "presim_back": 1, "presim_back_rev": False, "res_absence": ra, "max_time": seq_bound(sp) + 14}))
     return out
 
 
@@ -1220,7 +1231,7 @@ def revised_calendar_items(rules=("TSLACK",)):
     models = [with_teams(fl, "POOL2") for fl in list(flows(3, ("FS", "SS"), (2, 3)))[::4]] + auto_component_specs()[::3] + list(fac_specs("quick"))[::23]
     for sp in models:
         for k in (2, 3):
-            for a1, a2 in (([1, 5, 6], [4]), ([4, 5], []), ([], [3, 4]), ([0, 3, 7], [3, 5])):
+            for a1, a2 in (([1, 5, 6], [4]), ([k, k + 1], []), ([], [k, k + 1]), ([0, k + 1], [0]), ([k], [k + 1]), ([1, k, k + 2], [k + 1])):  # (steps k.. lie after the stop: planned off in one calendar, not in the other)
                 for f1, f2 in ((False, False), (True, False), (False, True)):
                     out.append((sp, {"rule": rules[0], "resume_from": k, "first_absence": a1, "absence": a2, "first_auto_abs": f1, "auto_abs": f2, "max_time": seq_bound(sp) + 16}))
     return out
